@@ -141,6 +141,9 @@ def refresh(v, name):
         if isinstance(o, int): return ZV('int', fresh(name, IntSort()))
         if isinstance(o, float): return ZV('real', fresh(name, RealSort()))
         if isinstance(o, str): return ZV('str', fresh(name, StringSort()))
+    if isinstance(v, PTuple) and v.is_list:
+        # a list built up by the loop: stays a sequence (its length is whatever the invariant says)
+        return PSeq(fresh(name, SeqArr), fresh(name + '_len', IntSort()), 'val', True)
     if isinstance(v, (PTuple, PExc)): return ZV('val', fresh(name, Val))
     raise Unsupported(f'cannot havoc local {name} = {v!r} at a loop head')
 
